@@ -528,7 +528,7 @@ SPEC = {
             'with the model and the invariants are evaluated on the implementation; non-trivial = at least 2 operations; '
             'distinct = distinct case text',
     'extra_trusted': ['C11: flate2/weezl are oracles whose answers come from the case (same table as C09)'],
-    'partial_note': 'proved: allocation invariant over every program, freshness, no collision, pruning = unreachable, frames of the allocation operations, delete_object leaves no reference behind (+ frame, termination); NOT proved as universally quantified theorems: Count bookkeeping of delete_pages, page content and effective resources after the content / resource operations -- these are decided on the implementation after every step by the harness and tied to the model by correspondence; three open known findings with class predicates and computed witnesses',
+    'partial_note': 'proved: allocation invariant over every program, freshness, no collision, pruning = unreachable, frames of the allocation operations, delete_object leaves no reference behind (+ frame, termination), page content after add_page_contents on plain pages; NOT proved as universally quantified theorems: Count bookkeeping of delete_pages, page content after change_page_content, effective resources after the resource operations -- these are decided on the implementation after every step by the harness and tied to the model by correspondence; three open known findings with class predicates and computed witnesses',
 }
 
 
